@@ -2,7 +2,7 @@
 import ast
 
 from .. import alg, cfg as cfgmod, symx
-from ..loader import AnalysisError, walk_no_nested, enclosing_class, enclosing_function
+from ..loader import AnalysisError, walk_no_nested, walk_all, enclosing_class, enclosing_function
 from ..norm import nf, show, attr_chain
 from . import common
 from .typeflow import Typer, Cls
@@ -360,7 +360,7 @@ class Flow:
                 for t in n.targets:
                     if isinstance(t, ast.Name):
                         names.add(t.id)
-        for n in walk_no_nested(func):
+        for n in walk_all(func):
             if isinstance(n, ast.Attribute) and isinstance(n.value, ast.Name) and n.value.id in names and isinstance(n.ctx, ast.Load):
                 self.reads.append((mn, func, n))
             if isinstance(n, ast.Call):
